@@ -99,7 +99,7 @@ class C17(Check):
                 "Pox.C17.stats_never_raises", "Pox.C17.other_messages_frame", "Pox.C17.legacy_interleave_defect",
                 "Pox.C17.legacy_stale_part_defect", "Pox.C17.legacy_unknown_type_raises",
                 "Pox.C17.views_consistent", "Pox.C17.copy_same_view", "Pox.C17.status_unknown_reason", "Pox.C17.features_restarts",
-                "Pox.C17.handshake_defers_in_order", "Pox.C17.view_at_connection_up", "Pox.C17.stats_two_requests",
+                "Pox.C17.handshake_defers_in_order", "Pox.C17.view_at_connection_up", "Pox.C17.stats_two_requests", "Pox.C17.stats_same_request_again",
                 "Pox.C17.raw_event_exactly_for_stats"]
     anchors = [("pox/openflow/of_01.py", 68, 111), ("pox/openflow/of_01.py", 176, 190), ("pox/openflow/of_01.py", 245, 254),
                ("pox/openflow/of_01.py", 337, 344), ("pox/openflow/of_01.py", 369, 372), ("pox/openflow/of_01.py", 390, 395),
@@ -376,6 +376,26 @@ class C17(Check):
                       "msgs": [a1, {"t": "status", "reason": 2, "port": ren, "snap": True}, b1, a2, {"t": "status", "reason": 1, "port": feat[1], "snap": True}]})
         cases.append({"features": feat, "early": [], "q": q, "peer": dict(peer, msgs=peer["msgs"][:1]), "msgs": [dict(a2, body=E[1][1:2])]})
         cases.append({"features": [], "early": [], "q": q, "peer": {"features": feat, "early": [], "q": q, "msgs": []}, "msgs": [{"t": "status", "reason": 0, "port": pd(3, "z", HWS[0]), "snap": True}]})
+        # --- HARDENING 1: several multipart replies on one connection that reuse the SAME (xid, type), 2..4 rounds back to back, with
+        #     nothing / echo / barrier / a one-part reply / another type's parts (same xid) in between, and with an empty final part
+        bar = {"t": "other", "hex": self.of.ofp_barrier_reply(xid=9).pack().hex()}
+        for x in (0, 5, 70000):
+            for t in MULTIPART:
+                t2 = MULTIPART[(MULTIPART.index(t) + 1) % 4]
+                betweens = {"none": [], "echo": [oth], "barrier": [bar], "one-part": [{"t": "stats", "xid": x, "type": 0, "more": False, "body": E[0][:1]}],
+                            "other-final": [{"t": "stats", "xid": x, "type": t2, "more": False, "body": E[t2][:2]}],
+                            "other-open": [{"t": "stats", "xid": x, "type": t2, "more": True, "body": E[t2][:1]}]}
+                for bname, between in sorted(betweens.items()):
+                    if x != 0 and bname in ("echo", "barrier"): continue
+                    for rounds, shapes in ((2, ([2, 1], [1, 1])), (3, ([1, 1, 1], [2, 0], [1, 2])), (4, ([1, 1], [1, 0], [0, 1], [1, 1, 1]))):
+                        if rounds == 4 and (x == 5 or bname not in ("none", "other-open")): continue
+                        msgs, i = [], 0
+                        for r in range(rounds):
+                            sz = shapes[r % len(shapes)]
+                            msgs += self.reply(x, t, E[t][i:i + sum(sz)], sz); i += sum(sz)
+                            if r < rounds - 1: msgs += [dict(m) for m in between]
+                        if bname == "other-open": msgs.append({"t": "stats", "xid": x, "type": t2, "more": False, "body": E[t2][1:2]})
+                        cases.append({"features": feat, "early": [], "q": q, "msgs": msgs})
         # --- HARDENING 7: listeners that raise do not disturb the assembly or the view
         cases.append({"features": feat, "early": [{"t": "status", "reason": 1, "port": feat[1]}], "q": q, "hostile": True,
                       "msgs": [a1, {"t": "status", "reason": 2, "port": ren, "snap": True}, b1, a2, b1]})
@@ -454,8 +474,14 @@ class C17(Check):
                     cuts = sorted(rng.randint(0, n) for _ in range(k - 1))                 # may give empty parts
                 sizes = [b - a for a, b in zip([0] + cuts, cuts + [n])]
                 stream = self.reply(xid, t, self._entries(rng, t, n), sizes)
-                if rng.random() < 0.3:                                                     # the same request id used again later
-                    n2 = rng.randint(0, 3); stream += self.reply(xid, t, self._entries(rng, t, n2), [n2])
+                if rng.random() < 0.45:                 # the same (xid, type) used again, back to back: a poller with a fixed xid (1..3 more rounds)
+                    for _ in range(rng.choice([1, 1, 2, 3])):
+                        k2 = rng.choice([1, 2, 2, 3, 4])
+                        n2 = rng.choice([0, 1, 2, 3, 5, rng.randint(0, 8)])
+                        cuts2 = sorted(rng.randint(0, n2) for _ in range(k2 - 1))
+                        if rng.random() < 0.35 and k2 > 1: cuts2[-1] = n2                    # an empty final part
+                        sizes2 = [b - a for a, b in zip([0] + cuts2, cuts2 + [n2])]
+                        stream += self.reply(xid, t, self._entries(rng, t, n2), sizes2)
             else:
                 stream = self.reply(xid, t, self._entries(rng, t, 1), [1])
             streams.append(stream)
